@@ -45,7 +45,11 @@ RULE = ("four seeded streams: (1) structured specs (0-3 inputs, 1-2 outputs, 1-4
         "specs (Model/MapSpecSpaced.lean): the harness draws a spec and a decoration (strip() whitespace incl. \\x1c-\\x1f around every array, "
         "index, '...' and '->'; newlines outside brackets; 12 % decorations broken on purpose), LEAN prints the text and says which spec it must parse "
         "to (C08_parse_spaced), from_string is run on that text; ops cases also carry to_string, swap / chain renames, two renames in a row "
-        "(C08_rename_compose: one table with the composed effect must give the same spec) and add_axes in two steps. A case is non-trivial when the spec has at least one input or the string at "
+        "(C08_rename_compose: one table with the composed effect must give the same spec) and add_axes in two steps; half of the ops cases end with a "
+        "'then' operation: rename / add_axes (one call or two; 7 % rejected ones) applied to the case's spec OBJECT after every read-only method was called on it "
+        "('used', 2/3) or to a newly built one ('fresh'), and str, round trip, external_indices, output_key / input_keys over all linear indices of the old external "
+        "shape extended by sizes for the new axes, the un-extended shape (must raise), shape() and one more rename / add_axes run on the object that was RETURNED, "
+        "with every clause of the statement evaluated on it and the Lean model computing the same chain (driver op 'then'). A case is non-trivial when the spec has at least one input or the string at "
         "least one bracket (a decorated spec: at least one whitespace character in the decoration); distinct by the case's JSON")
 ASSUMPTIONS = ["the regex engine of Model/MapSpecRegex.lean is the reading of CPython's sre (leftmost match, greedy/lazy priority order); it is exact for "
                "patterns whose repeated bodies and matches are never empty (proved for the source's pattern) and is compared with re.findall on every run",
@@ -57,6 +61,8 @@ ASSUMPTIONS = ["the regex engine of Model/MapSpecRegex.lean is the reading of CP
                "index names and distinct input names; other accepted specs are compared with the model only",
                "whitespace decorations are drawn from the ASCII characters str.strip() removes (space, \\t, \\n, \\r, \\x0b, \\x0c, \\x1c-\\x1f); the Unicode "
                "spaces (\\x85, \\xa0, U+2000...) that strip() also removes are not modelled",
+               "the model has no object state: a spec derived from a used object and one derived from a fresh object have the same model answer "
+               "(that the history of the source object is irrelevant is what the 'then' operations test on the implementation)",
                "mapspec_axes is compared in its repaired (DF-29) form: positional tuples of the full rank with None for an axis no MapSpec names"]
 
 WS_IN = [" ", "  ", "\t", "\r", "\x0b", "\x0c", " \t "]                # inside brackets: everything strip() removes except \n
@@ -386,7 +392,69 @@ def gen_ops(rng, spec):
         else:
             ax = ["new", "new"]
         ops.append(["add_axes", ax])
+    for _ in range(rng.choice([0, 1])):                                                        # operations on the DERIVED spec object
+        ops.append(gen_then(rng, spec, es))
     return ops
+
+
+def gen_then(rng, spec, es):
+    """["then", op1, subops, "used" | "fresh", touch_result_first]: `op1` (rename / add_axes, one call or two) is applied to the case's spec
+    object ("used": the very object every earlier operation of the case ran on, after `touch`; "fresh": a newly built one) and the sub-operations run on
+    the object it RETURNS. The shape of the derived spec keeps the sizes of the old external indices and adds sizes for the new ones."""
+    arr_names = sorted({n for n, _ in spec["inputs"] + spec["outputs"]})
+    used = {a for _, ax in spec["inputs"] + spec["outputs"] for a in ax if a is not None}
+    fresh = [i for i in IDX + ["new", "new2", "n3"] if i not in used]
+    r = rng.random()
+    if r < 0.4:
+        op1 = ["add_axes", [rng.choice(fresh)]]
+    elif r < 0.55:
+        op1 = ["add_axes", rng.sample(fresh, rng.choice([2, 2, 3]))]
+    elif r < 0.65:
+        pick = rng.sample(fresh, rng.choice([2, 3])); cut = rng.randint(1, len(pick) - 1)
+        op1 = ["add_axes_seq", pick[:cut], pick[cut:]]
+    elif r < 0.72:
+        op1 = ["add_axes", [rng.choice([None, "1x", rng.choice(sorted(used)) if used else "", fresh[0]])]]   # mostly rejected
+    elif r < 0.92 and arr_names:
+        ks = rng.sample(arr_names, rng.randint(1, min(3, len(arr_names))))
+        pool = ["r1", "r2", "sc.r3", "w"] + arr_names
+        op1 = ["rename", [[k, rng.choice(pool)] for k in ks]]
+    elif arr_names:
+        a = rng.choice(arr_names); mid = rng.choice(["t1", "sc.t1"] + arr_names)
+        op1 = ["rename_seq", [[a, mid]], [[rng.choice([mid, a]), rng.choice(["t2", a] + arr_names)]]]
+    else:
+        op1 = ["add_axes", [fresh[0]]]
+    d = derived_spec(spec, op1)
+    n_new = len(ext_shape(rng, d, 1, 1)) - len(es)
+    if n_new >= 0:
+        hi = 4 if math.prod(es) <= 8 else 3 if math.prod(es) <= 24 else 2
+        es2 = list(es) + [rng.randint(1, hi) for _ in range(n_new)]
+        if math.prod(es2) > 64:
+            es2 = list(es) + [1] * n_new
+    else:
+        es2 = ext_shape(rng, d, 1, 3)
+    subs = [["str"]]
+    if all(ax for _, ax in d["inputs"] + d["outputs"]):
+        subs.append(["roundtrip"])
+    subs.append(["ext"])
+    subs.append(["outkeys", es2])
+    subs.append(["inkeys_all", es2])
+    if es2 != list(es):                                                                        # the un-extended shape: must raise
+        subs.append(["outkey", list(es), 0])
+        subs.append(["inkeys", list(es), 0])
+    elif rng.random() < 0.3:
+        subs.append(["inkeys", es2 + [2], 0])
+    if d["outputs"] and all(isinstance(a, str) or a is None for _, ax in d["inputs"] + d["outputs"] for a in ax):
+        sh, internal = gen_shapes(rng, d)
+        subs.append(["shape", sorted(sh.items()), sorted(internal.items())])
+        if rng.random() < 0.5:
+            s2, i2 = perturb_shapes(rng, d, sh, internal)
+            subs.append(["shape", sorted(s2.items()), sorted(i2.items())])
+    if rng.random() < 0.25 and op1[0].startswith("add_axes"):                                  # derive once more from the derived object
+        f2 = [i for i in fresh if i not in [a for part in op1[1:] for a in part]]
+        subs.append(["add_axes", [f2[0]]] if f2 else ["to_string"])
+    elif rng.random() < 0.2 and arr_names:
+        subs.append(["rename", [[rng.choice(arr_names), "r7"]]])
+    return ["then", op1, subs, rng.choice(["used", "used", "fresh"]), rng.random() < 0.3]
 
 
 def gen_ops_case(rng):
@@ -657,9 +725,48 @@ def run_ops_impl(case):
     if "err" in con:
         return {"construct": con}, bad
     m = build(spec)
+    out = exec_ops(m, spec, case["ops"], mal, bad)
+    return {"construct": con, "ops": out}, bad
+
+
+def derived_spec(spec, op1):
+    """the structure `rename` / `add_axes` (one call or two in a row) must produce from `spec`"""
+    if op1[0] == "rename":
+        f = dict(op1[1]); g = lambda n: f.get(n, n)                                              # noqa: E731
+    elif op1[0] == "rename_seq":
+        r1, r2 = dict(op1[1]), dict(op1[2]); g = lambda n: r2.get(r1.get(n, n), r1.get(n, n))    # noqa: E731
+    else:
+        g = lambda n: n                                                                         # noqa: E731
+    add = op1[1] if op1[0] == "add_axes" else op1[1] + op1[2] if op1[0] == "add_axes_seq" else []
+    return {"inputs": [[g(n), list(ax) + list(add)] for n, ax in spec["inputs"]], "outputs": [[g(n), list(ax) + list(add)] for n, ax in spec["outputs"]]}
+
+
+def apply_spec_op(m, op1):
+    if op1[0] == "rename":
+        return m.rename(dict(op1[1]))
+    if op1[0] == "rename_seq":
+        return m.rename(dict(op1[1])).rename(dict(op1[2]))
+    if op1[0] == "add_axes":
+        return m.add_axes(*op1[1])
+    if op1[0] == "add_axes_seq":
+        return m.add_axes(*op1[1]).add_axes(*op1[2])
+    raise AssertionError(op1[0])
+
+
+def touch(m):
+    """every read-only public use of a spec object (whatever it computes lazily is computed now); nothing it raises matters here"""
+    n = len(attempt(lambda: m.external_indices).get("ok", ()))
+    for f in (lambda: str(m), lambda: hash(m), lambda: m.input_names, lambda: m.output_names, lambda: m.output_indices, lambda: m.input_indices,
+              lambda: m.external_indices, lambda: m.output_key((1,) * n, 0), lambda: m.input_keys((1,) * n, 0), lambda: m.to_string(),
+              lambda: m.shape({a.name: (1,) * len(a.axes) for a in m.inputs}), lambda: m == m, lambda: [(a.indices, a.rank, str(a)) for a in m.inputs + m.outputs]):
+        attempt(f)
+
+
+def exec_ops(m, spec, ops, mal, bad):
+    """runs `ops` on the spec OBJECT `m` whose structure is `spec`; observations returned, failed clauses appended to `bad`"""
     is_plain = plain(spec) and not mal
     out = []
-    for op in case["ops"]:
+    for op in ops:
         name = op[0]
         if name == "str":
             out.append(str(m))
@@ -776,9 +883,38 @@ def run_ops_impl(case):
                     bad.append("add_axes accepted an axis name that one of the arrays already uses")
             elif fine and not mal:
                 bad.append("add_axes of fresh identifier axes raised")
+        elif name == "then":
+            # an operation on the OBJECT `rename` / `add_axes` returned: the derived spec must denote the renamed / extended mapping, i.e.
+            # every clause of the statement holds on it, whatever was done with the source object before ("used") or not ("fresh")
+            op1, subs, hist = op[1], op[2], op[3]
+            src = m if hist == "used" else build(spec)
+            if hist == "used":
+                touch(src)
+            ro = attempt(lambda: apply_spec_op(src, op1))
+            if "err" in ro:
+                out.append(ro)
+                continue
+            d = ro["ok"]
+            dj = attempt(lambda: spec_json(d))
+            if "err" in dj:
+                out.append(dj)
+                continue
+            dj = dj["ok"]
+            what = f"the spec returned by {op1[0]}({', '.join(map(repr, op1[1:]))}) on a {hist} spec object"
+            if not mal and dj != derived_spec(spec, op1):
+                bad.append(f"{what} is not the renamed / extended mapping")
+            if spec_json(src) != spec or attempt(lambda: list(src.external_indices)) != attempt(lambda: list(build(spec).external_indices)):
+                bad.append(f"{op1[0]} changed the spec object it was called on")
+            sub_bad = []
+            touch_first = len(op) > 4 and op[4]
+            if touch_first:
+                touch(d)
+            sub = exec_ops(d, dj, subs, malformations(dj), sub_bad)
+            out.append({"ok": dj, "then": sub})
+            bad += [f"{what}: {b}" for b in sub_bad]
         else:
             raise AssertionError(name)
-    return {"construct": con, "ops": out}, bad
+    return out
 
 
 def run_parse_impl(case):
@@ -892,10 +1028,13 @@ def canon_model(case, resps):
             out["model-self-check"] = "regex engine and scanner differ (C08_regex_findall / C08_parse_is_regex)"
         return out
     r = copy.deepcopy(resps[0]["r"])
-    for i, op in enumerate(case["ops"]):
-        if "ops" not in r:
-            break
-        o = r["ops"][i]
+    if "ops" in r:
+        canon_ops(case["ops"], r["ops"])
+    return r
+
+
+def canon_ops(ops, obs):
+    for op, o in zip(ops, obs):
         if op[0] == "outkeys" and isinstance(o, dict) and "ok" in o:
             if o.pop("spec_agrees") is not True:
                 o["model-self-check"] = "outputKey over range(N) differs from allIdx"
@@ -903,7 +1042,8 @@ def canon_model(case, resps):
             o["ok"] = [list(kv) for kv in dict((n, k) for n, k in o["ok"]).items()]
         if op[0] == "inkeys_all" and "ok" in o:
             o["ok"] = [[list(kv) for kv in dict((n, k) for n, k in d).items()] for d in o["ok"]]
-    return r
+        if op[0] == "then" and isinstance(o, dict) and "then" in o:
+            canon_ops(op[2], o["then"])
 
 
 _PATTERN = None
@@ -1022,6 +1162,10 @@ def check_cases(ctx, cases):
             ctx.count("construct:accepted" if "ok" in o.get("construct", {}) else f"construct:{o.get('construct', {}).get('err')}")
             for op, r in zip(case["ops"], o.get("ops", [])):
                 ctx.count(f"op:{op[0]}:" + ("ok" if not isinstance(r, dict) or "ok" in r else r["err"]))
+                if op[0] == "then":
+                    ctx.count(f"then:{op[1][0]}:source-{op[3]}:" + ("ok" if "ok" in r else r["err"]))
+                    for sop, sr in zip(op[2], r.get("then", [])):
+                        ctx.count(f"then:sub:{sop[0]}:" + ("ok" if not isinstance(sr, dict) or "ok" in sr else sr["err"]))
             sp = case["spec"]
             ctx.count(f"inputs={len(sp['inputs'])} outputs={len(sp['outputs'])}")
         else:
@@ -1073,6 +1217,15 @@ CORPUS = [
      "ops": [["to_string"], ["rename", [["a", "b"], ["b", "c"]]], ["rename_seq", [["a", "b"]], [["b", "c"]]], ["rename", [["a", "b"], ["b", "a"]]],
              ["rename", [["a", "o"], ["o", "a"]]], ["add_axes", ["n", "n"]], ["add_axes_seq", ["n"], ["n"]], ["add_axes_seq", ["n"], ["k"]]], "label": "corpus"},
     {"k": "ops", "spec": {"inputs": [], "outputs": [["o", ["i"]]]}, "ops": [["add_axes", ["p"]], ["ext"], ["add_axes_seq", ["p"], ["q"]]], "label": "corpus"},
+    # the derived OBJECT must denote the extended / renamed mapping, whatever was done with the source object before (seeded C08-s5-A)
+    {"k": "ops", "spec": {"inputs": [["a", ["i"]], ["b", ["j"]]], "outputs": [["c", ["i", "j"]]]},
+     "ops": [["ext"], ["inkeys_all", [2, 3]],
+             ["then", ["add_axes", ["k"]], [["str"], ["roundtrip"], ["ext"], ["outkeys", [2, 3, 4]], ["inkeys_all", [2, 3, 4]], ["outkey", [2, 3], 0], ["inkeys", [2, 3], 0],
+                                           ["shape", [["a", [2, 4]], ["b", [3, 4]]], []]], "used", False],
+             ["then", ["add_axes", ["k"]], [["ext"], ["inkeys_all", [2, 3, 4]], ["inkeys", [2, 3], 0]], "fresh", True],
+             ["then", ["rename", [["a", "b"], ["b", "a"]]], [["str"], ["ext"], ["inkeys_all", [2, 3]], ["shape", [["a", [3]], ["b", [2]]], []]], "used", False]], "label": "corpus"},
+    {"k": "ops", "spec": {"inputs": [["x", ["i", None]], ["y.z", ["i"]]], "outputs": [["q", ["i"]]]},
+     "ops": [["then", ["add_axes_seq", ["k"], ["l"]], [["ext"], ["outkeys", [3, 2, 2]], ["inkeys_all", [3, 2, 2]], ["inkeys", [3], 0], ["add_axes", ["n"]]], "used", False]], "label": "corpus"},
     # C08_repeated_index_witness replayed on the real code: no shape is accepted by both output_key and input_keys
     {"k": "ops", "spec": {"inputs": [["a", ["i"]]], "outputs": [["b", ["i", "i"]]]},
      "ops": [["ext"], ["outkey", [2], 1], ["inkeys", [2], 1], ["inkeys", [2, 2], 1], ["outkey", [2, 2], 1]], "label": "corpus"},
